@@ -1,0 +1,28 @@
+//go:build verif
+
+package chunk
+
+// Machine-checked contract for Chunkify (used by relocation planning, C32).
+// Comment-only file: it adds no code to the package. Read by /verif/govc.
+
+//@ property C32
+
+// Chunkify cuts the slice into consecutive views: the first chunk starts where
+// the slice starts, each next chunk starts where the previous one ends, the
+// last one ends where the slice ends, every chunk is non-empty and at most
+// chunkSize long. (So the concatenation of the chunks is the slice.)
+//@ func Chunkify(slice, chunkSize)
+//@   requires chunkSize > 0 || len(slice) == 0
+//@   loop 1 invariant same-block: block(slice) == old(block(slice)) && offset(slice) + len(slice) == old(offset(slice) + len(slice)) && offset(slice) >= old(offset(slice)) && cap(slice) == old(cap(slice)) - (offset(slice) - old(offset(slice)))
+//@   loop 1 invariant size-positive: (chunkSize > 0 || len(slice) == 0) && chunkSize <= old(chunkSize)
+//@   loop 1 invariant starts-at-start: len(chunks) == 0 ==> offset(slice) == old(offset(slice))
+//@   loop 1 invariant last-ends-at-cursor: len(chunks) > 0 ==> offset(chunks[len(chunks)-1]) + len(chunks[len(chunks)-1]) == offset(slice) && offset(chunks[0]) == old(offset(slice))
+//@   loop 1 invariant consecutive: forall k int :: 0 <= k && k + 1 < len(chunks) ==> offset(chunks[k+1]) == offset(chunks[k]) + len(chunks[k])
+//@   loop 1 invariant views: forall k int :: 0 <= k && k < len(chunks) ==> block(chunks[k]) == old(block(slice)) && len(chunks[k]) > 0 && len(chunks[k]) <= old(chunkSize) && offset(chunks[k]) >= old(offset(slice)) && offset(chunks[k]) + len(chunks[k]) <= offset(slice)
+//@   ensures empty-gives-none: old(len(slice)) == 0 ==> len(result) == 0
+//@   ensures first-starts-at-start: len(result) > 0 ==> offset(result[0]) == old(offset(slice))
+//@   ensures last-ends-at-end: len(result) > 0 ==> offset(result[len(result)-1]) + len(result[len(result)-1]) == old(offset(slice) + len(slice))
+//@   ensures nonempty-gives-some: old(len(slice)) > 0 ==> len(result) > 0
+//@   ensures consecutive: forall k int :: 0 <= k && k + 1 < len(result) ==> offset(result[k+1]) == offset(result[k]) + len(result[k])
+//@   ensures views: forall k int :: 0 <= k && k < len(result) ==> block(result[k]) == old(block(slice)) && len(result[k]) > 0 && len(result[k]) <= old(chunkSize) && offset(result[k]) >= old(offset(slice)) && offset(result[k]) + len(result[k]) <= old(offset(slice) + len(slice))
+//@   ensures elements-untouched: old_objects_unchanged(slice)
